@@ -305,6 +305,36 @@ Definition spec_same_call (pd : digest) (s : sd) (n : N) : bool :=
   | _, _ => false
   end.
 
+(* messages for a stream of the sender that carry no session description (candidates): the permission for that
+   stream type - publish-screen for the screen stream; for audio / video what would allow an offer with an audio
+   or with a video section (publish-media, publish-audio or publish-video) *)
+Definition spec_send_allowed (s : sd) (stream : N) : bool :=
+  if N.eqb stream 2 then spec_offer_allowed s 2 0
+  else spec_offer_allowed s stream 1 || spec_offer_allowed s stream 2.
+
+Definition refused_not_allowed (c : N) (ob : obs) : bool :=
+  existsb (fun e => N.eqb (fst e) c && match snd e with SError code => N.eqb code 14 | _ => false end) (all_msgs ob).
+
+(* the gate itself: an offer (message kind 0), and a candidate for the sender's own stream (kind 2, addressed to
+   itself), is answered "not_allowed" exactly when the permission for that stream type is missing (and then nothing
+   is created at the media server) *)
+Definition step_C08_gate (pd : digest) (o : op) (ob : obs) : bool :=
+  match o with
+  | OMedia c (RSession i) mk stream media =>
+      match sd_of_conn pd c with
+      | Some s =>
+          if is_virtual_d s then true
+          else if N.eqb mk 0 then
+            let ok := spec_offer_allowed s stream media in
+            Bool.eqb (refused_not_allowed c ob) (negb ok)
+            && (ok || forallb (fun e => match e with MCreate _ _ _ _ _ => false | _ => true end) ob.(o_mcu))
+          else if N.eqb mk 2 && match i with IdPub n => N.eqb n s.(d_sid) | _ => false end then
+            Bool.eqb (refused_not_allowed c ob) (negb (spec_send_allowed s stream))
+          else true
+      | None => true end
+  | _ => true
+  end.
+
 Definition step_C08 (pd : digest) (o : op) (ob : obs) (dg : digest) : bool :=
   (* creations at the media server need the permission / call membership of the requester *)
   forallb (fun e => match e with
@@ -389,6 +419,22 @@ Definition step_C19 (pd : digest) (o : op) (ob : obs) (dg : digest) : bool :=
          | None => true end
        else true) pd.(g_sessions).
 
+(* "messages addressed to it reach its internal client with the recipient rewritten to the client's own
+   identifier": a message / control message whose recipient is the public id of a live virtual session is
+   judged by the reference routing (route_spec: one copy, on the connection of the internal client the
+   session belongs to, true sender, recipient = the chosen id; nothing for a sender of another backend or
+   a control message of a sender without the permission; nobody else gets a copy) - whoever the sender
+   is: the owning internal client, another internal client, an ordinary session.  Evaluated in the
+   quiescent semantics (as C05's clause), see check_step. *)
+Definition to_virtual (pd : digest) (o : op) : bool :=
+  match o with
+  | OMsg _ (RSession (IdPub n)) _ | OCtl _ (RSession (IdPub n)) _ =>
+      match find_sd pd n with Some t => is_virtual_d t | None => false end
+  | _ => false
+  end.
+Definition step_C19_msg (pd : digest) (o : op) (ob : obs) : bool :=
+  negb (to_virtual pd o) || step_C05 pd o ob.
+
 (* ------------------------------------------------------------------ stateful clauses: observers (C04) and resume (C06) *)
 Record pstate := mkps {
   ps_prev : digest;
@@ -397,8 +443,17 @@ Record pstate := mkps {
   ps_broken : list N;                    (* connections the server can no longer write to (it still believes them connected) *)
   ps_virt : list (N * (N * N));          (* virtual sessions seen so far and the room each was in (session ids are never reused) *)
   ps_tdata : alist (option (N * list (N * N)));   (* session -> room and the transient data it can reconstruct from what it received since it joined *)
+  ps_conns : list N;                     (* connections that were opened and neither dropped nor closed by the server *)
+  ps_doomed : list N;                    (* connections without a session whose writes (will) fail: the harness lets the server's
+                                            writes to them fail after some frames - a resume on one is cut while the queue is flushed *)
 }.
-Definition ps_init : pstate := mkps empty_digest [] [] [] [] [].
+Definition ps_init : pstate := mkps empty_digest [] [] [] [] [] [] [].
+(* the harness's marker "the server's writes to this connection fail (from some frame on)" is OConnect on a connection
+   that exists: wfail_of for one that has a session, doomed_of for one that has none yet *)
+Definition doomed_of (conns : list N) (pd : digest) (o : op) : option N :=
+  match o with
+  | OConnect c _ => match sd_of_conn pd c with Some _ => None | None => if nmem c conns then Some c else None end
+  | _ => None end.
 (* a session is reachable when it has a connection the server can write to *)
 Definition writable (broken : list N) (x : sd) : bool :=
   match x.(d_conn) with Some c => negb (nmem c broken) | None => false end.
@@ -523,15 +578,20 @@ Definition step_C06 (ps : pstate) (o : op) (ob : obs) (dg : digest) : bool :=
                     let got := recv_of ob c in
                     let queued := match aget ps.(ps_queue) n with Some l => l | None => [] end in
                     (* same session id first, then everything addressed to it meanwhile, in order, once *)
+                    let doomed := nmem c ps.(ps_doomed) in
                     match got with
                     | SHello sid _ :: rest =>
                         N.eqb sid n &&
                         (* ... up to a bye / disinvite that was waiting among them: that one ends the session, nothing
-                           can be written after it *)
-                        (if existsb (closing_for x) rest
+                           can be written after it; and up to the frame from which the writes to this connection fail
+                           (a connection cut while the queue is flushed): what it got is the beginning of the queue, in
+                           order, once - the rest stays queued for the next resume (ps_next), none of it may be lost:
+                           the session holds at least as many pending messages as are still owed *)
+                        (if existsb (closing_for x) rest || doomed
                          then list_eqb pair_eqb (smsg_tags rest) (firstn (length (smsg_tags rest)) queued)
                          else list_eqb pair_eqb (smsg_tags rest) queued)
                     | [SError 11] => true                 (* throttled *)
+                    | [] => doomed                        (* not even the reply could be written *)
                     | _ => false end
                     &&
                     match got with
@@ -542,7 +602,10 @@ Definition step_C06 (ps : pstate) (o : op) (ob : obs) (dg : digest) : bool :=
                         negb (live dg n) && nmem c ob.(o_closed)
                       else
                       match find_sd dg n with
-                      | Some y => optN_eqb y.(d_conn) (Some c) && opt_pair_eqb y.(d_room) x.(d_room) && N.eqb y.(d_pending) 0
+                      | Some y => optN_eqb y.(d_conn) (Some c) && opt_pair_eqb y.(d_room) x.(d_room)
+                                  && (if nmem c ps.(ps_doomed)
+                                      then (nlen queued - nlen (smsg_tags got)) <=? y.(d_pending)
+                                      else N.eqb y.(d_pending) 0)
                                   (* ... including the notice that it is in no room any more: what the client can
                                      reconstruct from the room events it got on all its connections is the server's room *)
                                   && match y.(d_room), aget (update_views pd dg ob ps.(ps_view)) n with
@@ -789,13 +852,28 @@ Definition ps_next (ps : pstate) (o : op) (ob : obs) (dg : digest) : pstate :=
   let br1 := match o with
              | ODrop c => match sd_of_conn dg c with Some _ => nadd c br0 | None => br0 end
              | _ => br0 end in
+  let gone c := match o with ODrop c' => N.eqb c c' | _ => false end || nmem c ob.(o_closed) in
+  let conns := filter (fun c => negb (gone c))
+                 (match o with OConnect c _ => nadd c ps.(ps_conns) | _ => ps.(ps_conns) end) in
+  let dm0 := match doomed_of ps.(ps_conns) pd o with Some c => nadd c ps.(ps_doomed) | None => ps.(ps_doomed) end in
+  (* a doomed connection that got a session: the server cannot write to it (any more) *)
+  let br1 := fold_left (fun acc c => match sd_of_conn dg c with Some _ => nadd c acc | None => acc end) dm0 br1 in
+  let dm1 := filter (fun c => negb (gone c) && match sd_of_conn dg c with Some _ => false | None => true end) dm0 in
   let br2 := filter (fun c => match sd_of_conn dg c with Some _ => true | None => false end) br1 in
   (* a successful resume empties the queue of that session; ended sessions are forgotten *)
   let q2 := match o with
-            | OHello c (HResume (IdPriv n)) => match sd_of_conn dg c with Some x => if N.eqb x.(d_sid) n then adel q1 n else q1 | None => q1 end
+            | OHello c (HResume (IdPriv n)) =>
+                match sd_of_conn dg c with
+                | Some x => if N.eqb x.(d_sid) n
+                            then if nmem c ps.(ps_doomed) && match sd_of_conn pd c with None => true | Some _ => false end
+                                 then (* cut while the queue was flushed: what was not received is still owed *)
+                                      aset q1 n (skipn (length (smsg_tags (recv_of ob c))) (match aget q1 n with Some l => l | None => [] end))
+                                 else adel q1 n
+                            else q1
+                | None => q1 end
             | _ => q1 end in
   mkps dg (update_views pd dg ob ps.(ps_view)) (filter (fun e => live dg (fst e)) q2) br2 (virt_next ps.(ps_virt) dg)
-       (update_tviews pd dg ob ps.(ps_tdata)).
+       (update_tviews pd dg ob ps.(ps_tdata)) conns dm1.
 
 (* clause numbers reported with a failure *)
 Definition check_step (which : N) (cfg : pcfg) (last : bool) (ps : pstate) (o : op) (ob : obs) (dg : digest) : N :=
@@ -813,11 +891,12 @@ Definition check_step (which : N) (cfg : pcfg) (last : bool) (ps : pstate) (o : 
   | 5 => if negb cfg.(pc_quiescent) || step_C05 pd o ob then 0 else 1
   | 6 => if negb cfg.(pc_quiescent) || step_C06 ps o ob dg then 0 else 1
   | 7 => if digest_C07 cfg.(pc_limits) dg then 0 else 1
-  | 8 => if step_C08 pd o ob dg then 0 else 1
+  | 8 => if negb (step_C08 pd o ob dg) then 1 else if negb (step_C08_gate pd o ob) then 2 else 0
   | 9 => if digest_C09 dg then 0 else 1
   | 19 => if negb (digest_C19 dg) then 1 else if negb (step_C19 pd o ob dg) then 2
           else if cfg.(pc_quiescent) && negb (part_ok ps.(ps_virt) pd dg o ob) then 3
-          else if cfg.(pc_quiescent) && negb (virtuals_seen_b ps.(ps_broken) dg views) then 4 else 0
+          else if cfg.(pc_quiescent) && negb (virtuals_seen_b ps.(ps_broken) dg views) then 4
+          else if cfg.(pc_quiescent) && negb (step_C19_msg pd o ob) then 5 else 0
   | 14 => step_C14 cfg.(pc_quiescent) ps.(ps_broken) pd (update_tviews pd dg ob ps.(ps_tdata)) o ob dg
   | _ => 0
   end.
@@ -851,7 +930,7 @@ Definition hold_ok (md dg : digest) : bool :=
      | None => true end) dg.(g_sessions).
 
 Definition check_step_spec (which : N) (cfg : pcfg) (last : bool) (ps : pstate) (md md' : digest) (o : op) (ob : obs) (dg : digest) : N :=
-  let ps' := mkps md ps.(ps_view) ps.(ps_queue) ps.(ps_broken) ps.(ps_virt) ps.(ps_tdata) in
+  let ps' := mkps md ps.(ps_view) ps.(ps_queue) ps.(ps_broken) ps.(ps_virt) ps.(ps_tdata) ps.(ps_conns) ps.(ps_doomed) in
   match check_step which cfg last ps' o ob dg with
   | 0 => match which with
          | 4 => if (cfg.(pc_quiescent) || last) && negb (observers_ok_b ps.(ps_broken) md' (update_views md dg ob ps.(ps_view))) then 12 else 0
